@@ -222,6 +222,8 @@ func runContention(r *common.Run) int {
 		{[]int{0, 0}, nil, "full", 3, ""},        // with cancelled calls and occupant presences
 		{[]int{0, 0}, nil, "core", 3, "%a"},      // the same on a component session …
 		{[]int{0, 10}, nil, "plain", 2, "%sn"},   // … and on a server-to-server session, Client without callbacks
+		{[]int{0, 0}, nil, "core", 4, "%cm"},     // round F: the two channels live on two sessions of one Client
+		{[]int{0, 10}, nil, "plain", 3, "%clm"},  // … swapping nicknames, callbacks assigned late
 	}
 	if r.Tier == "thorough" {
 		confs = []conf{
@@ -234,6 +236,9 @@ func runContention(r *common.Run) int {
 			{[]int{0, 0}, []int{10}, "plain", 3, "%sn"},
 			{[]int{0, 10}, nil, "plain", 3, "%an"},
 			{[]int{0, 0}, nil, "full", 3, "%s"},
+			{[]int{0, 0}, nil, "core", 5, "%cm"},
+			{[]int{0, 10}, nil, "plain", 4, "%clm"},
+			{[]int{0, 0}, []int{10}, "plain", 3, "%am"},
 		}
 	}
 	n, pruned := 0, 0
